@@ -965,3 +965,331 @@ func countBefore(fn *ssa.Function, in ssa.Instruction, pred func(cc *ssa.CallCom
 	})
 	return n
 }
+
+// ---------------------------------------------------------------------------------------
+// C30 — password checks accept exactly the proofs MySQL would accept (structural clauses)
+
+func init() {
+	register("C30", "Clauses decided (shape of the acceptance test, necessary for the statement; the scramble arithmetic itself is a value property and is NOT decided): (accept) in UserManager.CheckPassword / CheckSha2Password every accepting return is dominated by the true edge of bytes.Equal between the client's response parameter and mysql.CalcPassword / CalcCachingSha2Password applied to the salt parameter and the candidate password of users[user]; in CheckHashPassword it is dominated by mysql.CheckHashPassword(response, salt, <candidate>) being true and by the candidate having the '*' prefix; mysql.CheckHashPassword answers true only as the result of a full bytes.Equal; (pure) none of the check and scramble functions writes through a slice parameter (store through an index of the parameter, copy into it, append to it): the same response and salt are tested against several candidate passwords and by several checks in turn, so a check that overwrites them makes a correct proof fail for the next candidate.",
+		ruleC30)
+}
+
+func ruleC30(c *Ctx, r *Report) {
+	const rule = "MP-C30"
+	r.floor(rule, 11)
+	fUsers := c.Field(serverRel, "UserManager", "users")
+	calcNative := c.Func("mysql", "CalcPassword")
+	calcSha2 := c.Func("mysql", "CalcCachingSha2Password")
+	checkHash := c.Func("mysql", "CheckHashPassword")
+	if fUsers == nil || calcNative == nil || calcSha2 == nil || checkHash == nil {
+		r.undecided(rule, "mysql", "anchor", "-", "UserManager.users / mysql.CalcPassword / CalcCachingSha2Password / CheckHashPassword not all found")
+		return
+	}
+	isPkgFunc := func(cc *ssa.CallCommon, pkg, name string) bool {
+		f := staticCallee(cc)
+		return f != nil && f.Pkg != nil && f.Pkg.Pkg.Path() == pkg && f.Name() == name
+	}
+	type spec struct {
+		method string
+		calc   *ssa.Function // nil: hash form
+	}
+	for _, sp := range []spec{{"CheckPassword", calcNative}, {"CheckSha2Password", calcSha2}, {"CheckHashPassword", nil}} {
+		fn := c.Method(serverRel, "UserManager", sp.method)
+		if fn == nil || len(fn.Params) < 4 {
+			r.undecided(rule, "proxy/server.UserManager."+sp.method, "accept:anchor", "-", "method not found")
+			continue
+		}
+		name := c.FuncName(fn)
+		saltP, authP := ssa.Value(fn.Params[2]), ssa.Value(fn.Params[3])
+		isElem := func(v ssa.Value) bool { return elemOfMapSlice(v, fUsers) }
+		var elemOf func(v ssa.Value, depth int) bool
+		elemOf = func(v ssa.Value, depth int) bool {
+			v = stripValue(v)
+			if isElem(v) {
+				return true
+			}
+			if depth == 0 {
+				return false
+			}
+			switch x := v.(type) {
+			case *ssa.Convert:
+				return elemOf(x.X, depth-1)
+			case *ssa.Slice:
+				return elemOf(x.X, depth-1)
+			case *ssa.ChangeType:
+				return elemOf(x.X, depth-1)
+			}
+			return false
+		}
+		// accepting comparisons
+		var tests []*ssa.Call
+		allInstrs(fn, func(in ssa.Instruction) {
+			call, ok := in.(*ssa.Call)
+			if !ok {
+				return
+			}
+			if sp.calc != nil {
+				if !isPkgFunc(&call.Call, "bytes", "Equal") || len(call.Call.Args) != 2 {
+					return
+				}
+				a, b := stripValue(call.Call.Args[0]), stripValue(call.Call.Args[1])
+				if b == authP {
+					a, b = b, a
+				}
+				if a != authP {
+					return
+				}
+				cc, ok := b.(*ssa.Call)
+				if !ok || !callsFunc(&cc.Call, sp.calc) || len(cc.Call.Args) != 2 {
+					return
+				}
+				if stripValue(cc.Call.Args[0]) == saltP && elemOf(cc.Call.Args[1], 3) {
+					tests = append(tests, call)
+				}
+				return
+			}
+			if callsFunc(&call.Call, checkHash) && len(call.Call.Args) == 3 &&
+				stripValue(call.Call.Args[0]) == authP && stripValue(call.Call.Args[1]) == saltP && elemOf(call.Call.Args[2], 3) {
+				tests = append(tests, call)
+			}
+		})
+		nt := 0
+		for _, ret := range returnsOf(fn) {
+			v0, zero := retValues(ret, 0)
+			if zero {
+				continue
+			}
+			may := false
+			for _, v := range v0 {
+				if b, ok := constBool(v); !ok || b {
+					may = true
+				}
+			}
+			if !may {
+				continue
+			}
+			nt++
+			cons := fmt.Sprintf("accept:true-return#%d", nt)
+			good := false
+			for _, t := range tests {
+				if dominatedByCond(ret, t, true) {
+					good = true
+				}
+			}
+			if good && sp.calc == nil {
+				// the '*' prefix gate
+				good = false
+				allInstrs(fn, func(in ssa.Instruction) {
+					call, ok := in.(*ssa.Call)
+					if ok && isPkgFunc(&call.Call, "strings", "HasPrefix") && isElem(call.Call.Args[0]) && dominatedByCond(ret, call, true) {
+						good = true
+					}
+				})
+				if !good {
+					r.viol(rule, name, cons, c.Pos(ret.Pos()), "a candidate is tested as a stored SHA1 hash without having the '*' prefix (a clear-text password would be accepted as its own hash)")
+					continue
+				}
+			}
+			if good {
+				what := "bytes.Equal(response, scramble(salt, candidate password))"
+				if sp.calc == nil {
+					what = "mysql.CheckHashPassword(response, salt, candidate hash) on a '*'-prefixed candidate"
+				}
+				r.ok(rule, name, cons, c.Pos(ret.Pos()), "acceptance is dominated by "+what)
+			} else {
+				r.viol(rule, name, cons, c.Pos(ret.Pos()), "a handshake can be accepted without the full equality test between the client's response and the scramble of (salt, candidate password): proofs MySQL would reject pass, or the test uses other inputs than this handshake's salt and response")
+			}
+		}
+		if nt == 0 {
+			r.undecided(rule, name, "accept:true-return", c.Pos(fn.Pos()), "no accepting return found")
+		}
+	}
+	// mysql.CheckHashPassword: true only as the result of bytes.Equal
+	{
+		name := c.FuncName(checkHash)
+		okAll, n := true, 0
+		for _, ret := range returnsOf(checkHash) {
+			vals, zero := retValues(ret, 0)
+			if zero {
+				continue
+			}
+			for _, v := range vals {
+				if b, ok := constBool(v); ok && !b {
+					continue
+				}
+				n++
+				call, ok := stripValue(v).(*ssa.Call)
+				if !ok || !isPkgFunc(&call.Call, "bytes", "Equal") {
+					okAll = false
+					continue
+				}
+				for _, a := range call.Call.Args {
+					if _, cut := stripValue(a).(*ssa.Slice); cut {
+						okAll = false // a prefix/suffix comparison is not the full proof
+					}
+				}
+			}
+		}
+		if okAll && n > 0 {
+			r.ok(rule, name, "accept:result-is-equality", c.Pos(checkHash.Pos()), "answers true only as the result of bytes.Equal on whole slices")
+		} else {
+			r.viol(rule, name, "accept:result-is-equality", c.Pos(checkHash.Pos()), "can answer true other than through a full bytes.Equal comparison")
+		}
+	}
+	// purity: no write through slice parameters
+	pure := []*ssa.Function{checkHash, calcNative, calcSha2, c.Func("mysql", "CalcPasswordSHA1")}
+	for _, m := range []string{"CheckPassword", "CheckSha2Password", "CheckHashPassword"} {
+		pure = append(pure, c.Method(serverRel, "UserManager", m))
+	}
+	for _, fn := range pure {
+		if fn == nil {
+			r.undecided(rule, "mysql", "pure:anchor", "-", "a check/scramble function was not found")
+			continue
+		}
+		name := c.FuncName(fn)
+		if w, pos := writesThroughSliceParam(c, fn, 2, map[*ssa.Function]bool{}); w != "" {
+			r.viol(rule, name, "pure:slice-params", pos, w+": the client's response (or the salt) is tested against several candidate passwords and by several checks in turn; after this write a correct proof fails for the next candidate")
+		} else {
+			r.ok(rule, name, "pure:slice-params", c.Pos(fn.Pos()), "no store, copy or append through a slice parameter (module callees followed to depth 2)")
+		}
+	}
+}
+
+// writesThroughSliceParam reports a write into the backing array of one of fn's slice parameters: a Store whose address
+// is an index of (a reslice of) the parameter, copy(param, ..), append(param, ..), or passing it to a module function
+// that does so (depth-bounded).
+func writesThroughSliceParam(c *Ctx, fn *ssa.Function, depth int, seen map[*ssa.Function]bool) (string, string) {
+	if seen[fn] {
+		return "", ""
+	}
+	seen[fn] = true
+	params := map[ssa.Value]bool{}
+	for _, p := range fn.Params {
+		if _, ok := p.Type().Underlying().(*types.Slice); ok {
+			params[p] = true
+		}
+	}
+	if len(params) == 0 {
+		return "", ""
+	}
+	var derives func(v ssa.Value, d int) ssa.Value
+	derives = func(v ssa.Value, d int) ssa.Value {
+		v = stripValue(resolveLoad(stripValue(v)))
+		if params[v] {
+			return v
+		}
+		if d == 0 {
+			return nil
+		}
+		switch x := v.(type) {
+		case *ssa.Slice:
+			return derives(x.X, d-1)
+		case *ssa.Phi:
+			for _, e := range x.Edges {
+				if p := derives(e, d-1); p != nil {
+					return p
+				}
+			}
+		}
+		return nil
+	}
+	msg, pos := "", ""
+	allInstrs(fn, func(in ssa.Instruction) {
+		if msg != "" {
+			return
+		}
+		switch x := in.(type) {
+		case *ssa.Store:
+			if ia, ok := x.Addr.(*ssa.IndexAddr); ok {
+				if p := derives(ia.X, 4); p != nil {
+					msg, pos = fmt.Sprintf("stores into an element of its parameter %q", p.Name()), c.Pos(x.Pos())
+				}
+			}
+		case *ssa.Call:
+			if b, ok := x.Call.Value.(*ssa.Builtin); ok {
+				if (b.Name() == "copy" || b.Name() == "append") && len(x.Call.Args) > 0 {
+					if p := derives(x.Call.Args[0], 4); p != nil {
+						msg, pos = fmt.Sprintf("%ss into its parameter %q", b.Name(), p.Name()), c.Pos(x.Pos())
+					}
+				}
+				return
+			}
+			callee := staticCallee(&x.Call)
+			if callee == nil || !c.InModule(callee) || depth == 0 || len(callee.Blocks) == 0 {
+				return
+			}
+			for i, a := range x.Call.Args {
+				if p := derives(a, 4); p != nil && i < len(callee.Params) {
+					// does the callee write through the corresponding parameter?
+					sub := map[*ssa.Function]bool{}
+					for k := range seen {
+						sub[k] = true
+					}
+					if w, wpos := writesThroughOneParam(c, callee, callee.Params[i], depth-1, sub); w != "" {
+						msg, pos = fmt.Sprintf("passes its parameter %q to %s, which %s", p.Name(), c.FuncName(callee), w), wpos
+					}
+				}
+			}
+		}
+	})
+	return msg, pos
+}
+
+func writesThroughOneParam(c *Ctx, fn *ssa.Function, param *ssa.Parameter, depth int, seen map[*ssa.Function]bool) (string, string) {
+	if _, ok := param.Type().Underlying().(*types.Slice); !ok {
+		return "", ""
+	}
+	var derives func(v ssa.Value, d int) bool
+	derives = func(v ssa.Value, d int) bool {
+		v = stripValue(resolveLoad(stripValue(v)))
+		if v == ssa.Value(param) {
+			return true
+		}
+		if d == 0 {
+			return false
+		}
+		switch x := v.(type) {
+		case *ssa.Slice:
+			return derives(x.X, d-1)
+		case *ssa.Phi:
+			for _, e := range x.Edges {
+				if derives(e, d-1) {
+					return true
+				}
+			}
+		}
+		return false
+	}
+	msg, pos := "", ""
+	allInstrs(fn, func(in ssa.Instruction) {
+		if msg != "" {
+			return
+		}
+		switch x := in.(type) {
+		case *ssa.Store:
+			if ia, ok := x.Addr.(*ssa.IndexAddr); ok && derives(ia.X, 4) {
+				msg, pos = fmt.Sprintf("stores into an element of %q", param.Name()), c.Pos(x.Pos())
+			}
+		case *ssa.Call:
+			if b, ok := x.Call.Value.(*ssa.Builtin); ok {
+				if (b.Name() == "copy" || b.Name() == "append") && len(x.Call.Args) > 0 && derives(x.Call.Args[0], 4) {
+					msg, pos = fmt.Sprintf("%ss into %q", b.Name(), param.Name()), c.Pos(x.Pos())
+				}
+				return
+			}
+			callee := staticCallee(&x.Call)
+			if callee == nil || !c.InModule(callee) || depth == 0 || len(callee.Blocks) == 0 || seen[callee] {
+				return
+			}
+			seen[callee] = true
+			for i, a := range x.Call.Args {
+				if derives(a, 4) && i < len(callee.Params) {
+					if w, wpos := writesThroughOneParam(c, callee, callee.Params[i], depth-1, seen); w != "" {
+						msg, pos = fmt.Sprintf("passes it to %s, which %s", c.FuncName(callee), w), wpos
+					}
+				}
+			}
+		}
+	})
+	return msg, pos
+}
